@@ -246,9 +246,9 @@ pub fn run(pc: &PropCtx) {
     pc.rule(
         "for each generated search (matcher, configuration incl. binary detection, input <= 600 bytes, strategy) the uninterrupted event log L is recorded; then the sink returns stop, and separately an error, at EVERY event index of L (begin, match, context, break, binary notice), and for reader strategies the reader returns an I/O error, and separately Interrupted, at EVERY read index. Oracle: delivered == L[..=k] (+ exactly one finish after a stop, none after an error, error returned); read faults: delivered is a prefix of L, no finish, error returned. Non-trivial = |L| >= 4 with at least one context and one break event; distinct by hash. evaluations counts cases; classes count fault points by kind",
     );
-    let cases = pc.tier.pick(20_000, 400_000);
+    let cases = pc.tier.pick(60_000, 600_000);
     pc.run_tape("line_mode_faults", cases, (256, 3000), gen_case, check);
-    let ml_cases = pc.tier.pick(15_000, 300_000);
+    let ml_cases = pc.tier.pick(45_000, 450_000);
     pc.run_tape("multi_line_faults", ml_cases, (128, 1500), gen_case_ml, check);
     pc.require_class("multi_line_faults:multi_line", ml_cases as u64 / 4);
     pc.require_class("line_mode_faults:stop_at_context", cases as u64 / 20);
